@@ -33,6 +33,26 @@ func staticOverlays(mode string) map[string]string {
 		}
 		out[filepath.Join(*repo, "pkg", "go", "gen", "zz_verif_hooks.go")] = dst
 	}
+	if mode == "sched" {
+		modcache := os.Getenv("GOMODCACHE")
+		if modcache == "" {
+			home, _ := os.UserHomeDir()
+			modcache = filepath.Join(home, "go", "pkg", "mod")
+		}
+		target := filepath.Join(modcache, "github.com", "antlr4-go", "antlr", "v4@v4.13.1", "mutex.go")
+		if _, err := os.Stat(target); err != nil {
+			fatal("antlr mutex.go not found in module cache: %v", err)
+		}
+		b, err := os.ReadFile(filepath.Join(*verifDir, "instr", "static", "antlr_mutex.go.txt"))
+		if err != nil {
+			fatal("%v", err)
+		}
+		dst := filepath.Join(*outDir, "static_antlr_mutex.go")
+		if err := os.WriteFile(dst, b, 0o644); err != nil {
+			fatal("%v", err)
+		}
+		out[target] = dst
+	}
 	if mode != "maps" {
 		return out
 	}
